@@ -344,9 +344,12 @@ def hosted_neighbours(algorithm, prob_a, prob_b, prob_c, backend_url):
     if op.HasField('error'):
       raise RuntimeError('operation-error:' + op.error.message[:80])
     out = []
-    for t in vs.SuggestTrialsResponse.FromString(op.response.value).trials:
+    got = list(vs.SuggestTrialsResponse.FromString(op.response.value).trials)
+    for k, t in enumerate(got):
       pt = pcv.TrialConverter.from_proto(t)
       out.append([{'name': kk, 'v': fkey.value_record(v.value)} for kk, v in sorted(pt.parameters.items())])
+      if k == len(got) - 1 and len(got) > 1:
+        continue               # one trial of every batch stays ACTIVE (the same worker id serves both studies)
       r = vs.CompleteTrialRequest(name=t.name)
       for mi in prob_a.metric_information:
         r.final_measurement.metrics.add(metric_id=mi.name, value=1.0)
@@ -357,13 +360,13 @@ def hosted_neighbours(algorithm, prob_a, prob_b, prob_c, backend_url):
     na = create('h', prob_a)
     nb = create('h0', prob_b)
     for k in range(3):
-      res['a'] += suggest(na, 2, 'wa')
-      res['b'] += suggest(nb, 2, 'wb')
+      res['a'] += suggest(na, 2, 'w')
+      res['b'] += suggest(nb, 2, 'w')
     svc.DeleteStudy(vs.DeleteStudyRequest(name=na))
     nc = create('h', prob_c)
     for k in range(2):
-      res['c'] += suggest(nc, 2, 'wa')
-      res['b'] += suggest(nb, 1, 'wb')
+      res['c'] += suggest(nc, 2, 'w')
+      res['b'] += suggest(nb, 1, 'w')
   except Exception as e:  # pylint: disable=broad-except
     return [(prob_a, res['a']), (prob_b, res['b']), (prob_c, res['c'])], 'refused:%s:%s' % (type(e).__name__, str(e)[:80])
   return [(prob_a, res['a']), (prob_b, res['b']), (prob_c, res['c'])], None
